@@ -29,7 +29,8 @@ type Program struct {
 	// whose package belongs to the module.
 	AllFuncs []*ssa.Function
 
-	idx *indexes
+	idx     *indexes
+	listing *PanicListing
 }
 
 func loadEnv(arch string) []string {
